@@ -554,15 +554,21 @@ def check_wire(run, keys, quick, samples, distinct):
         return 0
     wire = bins["wire"]
     nsh = 3
-    toml = W.make_toml(pools={"db": {"opts": {"query_parser_enabled": True, "query_parser_read_write_splitting": True, "automatic_sharding_key": "data.id",
-                                                "sharding_function": "pg_bigint_hash", "default_role": "any", "primary_reads_enabled": True},
-                                       "users": [{"pool_size": 2}],
-                                       "shards": [{"servers": [["s0", "primary"]]}, {"servers": [["s1", "primary"], ["s1r", "replica"]]}, {"servers": [["s2", "primary"]]}]}})
+    def mk_toml(default_shard, lb):
+        opts = {"query_parser_enabled": True, "query_parser_read_write_splitting": True, "automatic_sharding_key": "data.id",
+                "sharding_function": "pg_bigint_hash", "default_role": "any", "primary_reads_enabled": True, "load_balancing_mode": lb}
+        if default_shard != "shard_0":
+            opts["default_shard"] = default_shard
+        return W.make_toml(pools={"db": {"opts": opts, "users": [{"pool_size": 2}],
+                                         "shards": [{"servers": [["s0", "primary"]]}, {"servers": [["s1", "primary"], ["s1r", "replica"]]}, {"servers": [["s2", "primary"]]}]}})
     backends = [{"name": n} for n in ("s0", "s1", "s1r", "s2")]
     shard_of_backend = {"s0": 0, "s1": 1, "s1r": 1, "s2": 2}
     r = run.rng
     scns, metas = [], []
-    for t in range(24 if quick else 300):
+    for t in range(30 if quick else 400):
+        # the selected shard must hold whatever the pool does for clients that selected nothing
+        dsh = ["shard_0", "random", "random_healthy"][t % 3]
+        toml = mk_toml(dsh, r.choice(["random", "loc"]))
         steps = [{"op": "connect", "c": "c1", "params": {"user": "u", "database": "db"}, "password": "pw"}]
         cur = None          # model: sticky selection (Paths.set_shard / SET SHARDING KEY / literal)
         expect = []         # (tag, expected shard or None)
@@ -594,7 +600,7 @@ def check_wire(run, keys, quick, samples, distinct):
                 expect.append(("stmt", tag, cur))
             else:
                 steps += [{"op": "send", "c": "c1", "msgs": [{"t": "Q", "sql": "SELECT 1 /*%s*/" % tag}]}, {"op": "recv", "c": "c1"}]
-                expect.append(("stmt", tag, cur if cur is not None else 0))   # default_shard = shard_0
+                expect.append(("stmt", tag, cur if cur is not None else (0 if dsh == "shard_0" else "any")))   # nothing selected: default_shard decides
         scns.append({"backends": backends, "toml": toml, "steps": steps})
         metas.append(expect)
     results = W.run_scenarios(wire, scns, timeout=60)
@@ -619,7 +625,7 @@ def check_wire(run, keys, quick, samples, distinct):
             ri += 1
             if kind == "stmt":
                 got = where.get(arg)
-                if got is None or shard_of_backend[got] != want:
+                if got is None or (want != "any" and shard_of_backend[got] != want):
                     run.violation("counterexample", "statement %s executed on backend %r (shard %s), selected shard is %s" % (arg, got, shard_of_backend.get(got), want),
                                   {"input": {"steps": scn["steps"]}, "expected_shard": want, "impl_backend": got})
                     return n
